@@ -6,7 +6,7 @@ From Coq Require Import ZArith QArith Qabs List Bool Sorted Lia.
 (* C05 (for the link theorems) first, C09 last: unqualified names are C09's, C05's are written qualified *)
 From PV Require Import C05.Model C05.Spec C05.Props Base.NpSort.
 From PV Require Import C09.Model C09.Spec C09.Proofs C09.Proofs2 C09.Proofs3 C09.Proofs4 C09.Proofs5.
-From PV Require Import C09.Spec2 C09.Proofs6 C09.Link.
+From PV Require Import C09.Spec2 C09.Proofs6 C09.Proofs7 C09.Link.
 Import ListNotations.
 Open Scope Z_scope.
 
@@ -401,3 +401,28 @@ Proof.
     first [reflexivity | eexists; reflexivity | discriminate | (destruct H; discriminate)].
 Qed.
 Print Assumptions C09_channels_defined_iff.
+
+(* ---- the justification of the comparator's InBig cases (datasets of 50 000 ... 150 003 spikes) as a theorem ----
+   get_depths returns, for spike k, a value that depends only on the features and the template of spike k: on the
+   dataset that repeats a period of K spikes n times round (tile), for EVERY batch size, the result is the result
+   on one period, repeated.  Corr.check_big evaluates the model on the period and compares cyclically. *)
+Theorem C09_depths_periodic : forall (nbatch : Z) (pos : mat) (data : list mat) (cols : mat) (st : list Z) (n : nat),
+  1 <= nbatch -> data <> [] -> length st = length data ->
+  let i1 := mk_depth_in (zlen data) (Some (data, cols)) st pos in
+  let iN := mk_depth_in (Z.of_nat n) (Some (tile n data [], cols)) (tile n st 0) pos in
+  wf_depth i1 = true ->
+  exists pat out,
+    get_depths_Q nbatch i1 = Some (Some pat) /\ length pat = length data /\
+    get_depths_Q nbatch iN = Some (Some out) /\ length out = n /\
+    forall k, (k < n)%nat -> nth k out None = nth (k mod length data)%nat pat None.
+Proof. exact depths_periodic_thm. Qed.
+Print Assumptions C09_depths_periodic.
+
+Example C09_ex_periodic :     (* the period of C09_ex_depths, 7 spikes, batch size 3 *)
+  match ex_depth with
+  | mk_depth_in _ (Some (data, cols)) st pos =>
+      option_map (option_map (map (fun x => match x with Some q => Some (Qred q) | None => None end)))
+        (get_depths_Q 3 (mk_depth_in 7 (Some (tile 7 data [], cols)) (tile 7 st 0) pos))
+  | _ => None
+  end = Some (Some [Some (10 # 1); None; Some (30 # 1); Some (10 # 1); None; Some (30 # 1); Some (10 # 1)]%Q).
+Proof. vm_compute. reflexivity. Qed.
